@@ -241,6 +241,24 @@ func c19Table(w *W) {
 		if !checkOptions(w, tr+"-listener", l, false) {
 			return
 		}
+		// a value set on the socket takes effect on the endpoints it already
+		// has - also when an endpoint had been given a value of its own and
+		// the socket is set to the value it holds already
+		if d.SetOption(mangos.OptionDialAsynch, false) == nil {
+			mustSet(w, s, mangos.OptionDialAsynch, true)
+			if got, err := d.GetOption(mangos.OptionDialAsynch); err != nil || got != true {
+				w.Failf("C19/socket-option-not-applied-to-endpoint:dialer:"+mangos.OptionDialAsynch, "%s dialer had DialAsynch false of its own; after SetOption(DialAsynch, true) on its socket it reports (%v, %v)", tr, got, errName(err))
+				return
+			}
+		}
+		if l.SetOption(mangos.OptionMaxRecvSize, 64) == nil {
+			mustSet(w, s, mangos.OptionMaxRecvSize, 4321)
+			if got, err := l.GetOption(mangos.OptionMaxRecvSize); err != nil || got != 4321 {
+				w.Failf("C19/socket-option-not-applied-to-endpoint:listener:"+mangos.OptionMaxRecvSize, "%s listener had MaxRecvSize 64 of its own; after SetOption(MaxRecvSize, 4321) on its socket it reports (%v, %v)", tr, got, errName(err))
+				return
+			}
+			w.Probe("socket-option-reaches-existing-endpoints")
+		}
 		w.Probe("endpoint-" + tr)
 	}
 	if hasContexts(kind) {
